@@ -79,10 +79,37 @@ def evaluate(rep, cases, shrink_budget=120):
     return len(bad)
 
 
+def file_chain_cases(rng, n):
+    """the same layer chains as files (`a.json` <- `a.l1.yaml` <- ...), evaluated by the command line: the loader and the filename
+    inheritance are the glue between the layers on disk and the merge rules; a layer whose whole document is null changes nothing"""
+    import fscheck
+    from props.toolscommon import fix_floats
+    out = []
+    while len(out) < n:
+        c = gen_case(rng)
+        layers = [fix_floats(s["merge"]["data"]) for s in c["steps"] if "merge" in s]
+        if rng.random() < 0.35:
+            layers.insert(rng.randrange(1, len(layers)) if rng.random() < 0.8 else rng.randrange(0, len(layers) + 1), None)
+        share = rng.random() < 0.5
+        if share and isinstance(layers[0], dict) and len(layers[0]) >= 1:
+            # the base repeats one of its subtrees under further keys (written with a YAML anchor and aliases)
+            k0 = rng.choice(sorted(layers[0]))
+            layers[0] = dict(layers[0], zz1=layers[0][k0], zz2={"in": layers[0][k0]})
+        layout, top = fscheck.chain_layout(rng, layers, share=share)
+        out.append({"layout": layout, "opts": {"inputs": [top], "format": "json"}, "meta": {"kind": ("null-layer" if None in layers else "plain") + ("+anchors" if share else "")}})
+    return out
+
+
+def file_chain_stage(rep, rng, n):
+    import fscheck
+    return fscheck.file_chain_stage(rep, file_chain_cases(rng, n))
+
+
 def run(rep):
     rep.rule = ("chains of 2-4 single-document layers (file-style parent links) over a 5-key alphabet with every "
                 "override directive at legal and misplaced positions; non-trivial = parent and first child are maps "
-                "sharing a key, or some step is rejected; distinct = distinct canonical step lists")
+                "sharing a key, or some step is rejected; distinct = distinct canonical step lists; the same chains as layer FILES "
+                "(json/yaml/yml/jsonl, a null-rooted layer at any position) evaluated by the command line against the model of loader + merge")
     rep.proof, rep.broken = proof_step(PID)
     rng = random.Random(rep.seed)
     n = 4000 if rep.tier == "quick" else 120000
@@ -125,6 +152,8 @@ def run(rep):
             nbad += evaluate(rep, cs, shrink_budget=40)
             if nbad:
                 break
+    if nbad == 0:
+        nbad += file_chain_stage(rep, rng, 300 if rep.tier == "quick" else 6000)
     alias_verdict(rep)
     if rep.broken and not rep.violations:
         # a proof obligation broke but no failing input was found: extra targeted budget, then report
@@ -136,6 +165,9 @@ def run(rep):
 
 def replay(rep, payload):
     case = payload["case"]
+    if "filechain" in case:
+        import fscheck
+        return fscheck.file_chain_replay(case["filechain"])
     r = run_cases([case])[0]
     print("impl :", r[1])
     print("model:", r[2])
